@@ -56,3 +56,61 @@ func VerifC11SendBurst(ids []uint16, ports []int) (available bool) {
 	e.sendGroup(&e.txSenders[0], jobs, srv)
 	return true
 }
+
+// VerifC11FlushStaged puts the worker of a one-worker engine in the state
+// "replies ids[i] → 127.0.0.1:ports[i] are staged on my burst (served requests
+// awaiting the send), and the request I serve now leaves the fast path": the
+// current job has written nothing yet and calls FlushStaged, as Chain's
+// strict-context detach and the decoded fallback do. Returns how many jobs are
+// still staged on the burst afterwards. available=false: no batch TX here.
+func VerifC11FlushStaged(ids []uint16, ports []int) (stillStaged int, available bool) {
+	srv, err := net.ListenUDP("udp", &net.UDPAddr{IP: net.IPv4(127, 0, 0, 1)})
+	if err != nil {
+		return 0, false
+	}
+	defer srv.Close()
+	e := newUDPEngine(verifC11Noop{}, []*net.UDPConn{srv}, false, 1, 8, defaultResourcePlan(1))
+	if e.txConns == nil || e.txConns[srv] == nil {
+		return 0, false
+	}
+	burst := udpTXBurst{slot: 0}
+	mk := func(id uint16, port int) *udpJob {
+		j := &udpJob{engine: e, pc: srv}
+		var sa [unix.SizeofSockaddrInet4]byte
+		sa[0] = byte(unix.AF_INET)
+		sa[2], sa[3] = byte(port>>8), byte(port)
+		copy(sa[4:8], net.IPv4(127, 0, 0, 1).To4())
+		if !j.setRemoteRaw(sa[:]) {
+			return nil
+		}
+		copy(j.rawSA[:], sa[:])
+		j.rawSALen = uint32(len(sa))
+		// owned exactly like a job between serve and send
+		e.leased.Add(1)
+		e.inFlight.Add(1)
+		j.state = udpJobServing
+		m := new(dns.Msg)
+		m.SetQuestion("burst.c11.test.", dns.TypeA)
+		m.Id = id
+		m.Response = true
+		if out, perr := m.PackBuffer(j.tx[:]); perr == nil {
+			j.txLen = len(out)
+		}
+		return j
+	}
+	for i, port := range ports {
+		j := mk(ids[i], port)
+		if j == nil {
+			return 0, false
+		}
+		burst.add(j)
+	}
+	cur := mk(0, 9)
+	if cur == nil {
+		return 0, false
+	}
+	cur.txLen = 0 // nothing written yet: it is only now entering its slow path
+	cur.burst = &burst
+	cur.FlushStaged()
+	return burst.n, true
+}
